@@ -14,7 +14,7 @@ META = {
     "assumptions": ["R-ideal: exact real arithmetic", "assume-guarantee cut: inside eer() the bisection is replaced by its verified contract — it returns the mid-point of SOME interval [a,b] in [xa,xe] with b-a < xtol and f(a) <= 0 <= f(b) "
                     "(first/last-root side conditions included); the contract is discharged on the real _find_root for bounded step counts and extends to any number of steps by induction on the loop (each step halves the interval and keeps f(lo) <= 0 <= f(hi))",
                     "crossing clause claimed for equally spaced scores (any equal spacing by C08's affine lemma); unequal spacings are outside the claim (bilinear queries)",
-                    "float rounding of the shortcut mid-point (adjacent doubles) is covered by a concrete regression witness only"],
+                    "float rounding of the shortcut mid-point is decided in the F-bits regime (kind=fbits: z3 FloatingPoint, symbolic doubles through the real eer()/cm() on 1+1 scores) and replayed as a concrete regression witness"],
 }
 OPTS = {"quick": {"query_timeout_ms": 30000, "max_paths": 50000, "max_decisions": 2000}, "thorough": {"query_timeout_ms": 120000, "max_paths": 500000, "max_decisions": 5000}}
 XTOL = "1/10000000000"
@@ -41,6 +41,8 @@ def items(tier):
     for ff in (True, False):
         out.append({"kind": "find_root", "find_first": ff, "steps": 2 if tier == "quick" else 3})
     out.append({"kind": "find_root_invalid"})
+    for sc, ec in CFGS:
+        out.append({"kind": "fbits", "sc": sc, "ec": ec})
     sizes = [(1, 1), (2, 1), (1, 2), (2, 2)] if tier == "quick" else [(1, 1), (2, 1), (1, 2), (2, 2), (3, 2), (2, 3), (3, 3)]
     easy = [(0, 0), (1, 2), (3, 0)] if tier == "quick" else [(0, 0), (1, 2), (3, 0), (0, 4), (2, 2)]
     for sc, ec in CFGS:
@@ -244,6 +246,21 @@ def run_equivariance(h, sc, ec, P, N, pos_ranks):
     other = {"pos": "neg", "neg": "pos"}[sc]
     R = h.sa.Scores(h.array([-v for v in pos]), h.array([-v for v in neg]), nb_easy_pos=kp, nb_easy_neg=kn, score_class=other, equal_class=ec)
     h.check("sign of the EER root function is invariant under negation + direction flip", h.eq(sign_of_f(R), s0))
+
+
+def run_fbits(h, sc, ec):
+    """F-bits: the perfect-separation shortcut on SYMBOLIC IEEE doubles (one positive, one negative, strictly separated
+    in the right direction, incl. adjacent doubles whose mid-point rounds onto one of them): the real eer() returns
+    EER 0 with a threshold at which the real cm() counts no error."""
+    x, y = h.fp("pos0"), h.fp("neg0")
+    h.assume((x > y) if sc == "pos" else (x < y))
+    S = h.sa.Scores(h.array([x]), h.array([y]), score_class=sc, equal_class=ec, is_sorted=True)
+    t, e = S.eer()
+    h.check("[float64] strictly separated classes: EER is exactly 0", e == 0)
+    m = h.cells(S.cm(t).matrix)
+    h.check("[float64] zero EER comes with an error-free threshold for every pair of doubles (adjacent ones included)", h.And(h.eq(m[1], 0), h.eq(m[2], 0)))
+    lo, up = (y, x) if sc == "pos" else (x, y)
+    h.check("[float64] the threshold lies between the two scores", h.And(lo <= t, t <= up))
 
 
 def regressions(h):
